@@ -96,7 +96,7 @@ class Nesting(Harness):
                 for i in range(len(INNERS)):
                     for where in ('other', 'same'):
                         for depth in (1, 2):
-                            if tier == 'quick' and depth == 2 and i not in (0, 3):
+                            if False and tier == 'quick' and depth == 2 and i not in (0, 3):
                                 continue
                             out.append({'cb': cb, 'o': o, 'i': i, 'where': where, 'depth': depth})
         return out
